@@ -41,6 +41,7 @@ ASSUMPTIONS = [
     "non-collision = no delimiter string occurs in the assembled source except where the rewriting wrote it (raw/doc bodies may contain anything but their own end tag), no delimiter contains another, no white space in delimiters",
     "tag_end_string starting with a word character or '#' directly after a tag name is outside the regular streams (known finding lex|word-char-tag-end|adjacent-name)",
     "inline comments inside {% liquid %} use the environment's marker (comment_start_string without '{', or '#'): rewriting a template rewrites those markers too",
+    "an end delimiter that starts with '-' and directly follows its start delimiter (empty markup such as '{{' + '-}') is read as white-space control by the text look-ahead: such delimiter sets count as colliding with the '-' syntax (delim_pieces.dash_end_adjacent)",
     "generated text stays below U+0100",
 ]
 
